@@ -45,8 +45,15 @@ def Err.name : Err → String
 def xor (a b : Bytes) : Except Err Bytes :=
   if a.length = b.length then .ok (xorBytes a b) else .error .exception
 
-/-- `"%d" % n` as ASCII octets -/
-def decimal (n : Nat) : Bytes := (Nat.toDigits 10 n).map (fun c => UInt8.ofNat c.toNat)
+/-- digits of `n`, least significant pushed first onto `acc` (`fuel` > number of digits) -/
+def decimalAux : Nat → Nat → Bytes → Bytes
+  | 0, _, acc => acc
+  | fuel + 1, n, acc =>
+    let acc' := UInt8.ofNat (48 + n % 10) :: acc
+    if n / 10 = 0 then acc' else decimalAux fuel (n / 10) acc'
+
+/-- `str(n)` / `f"{n}"` for a non-negative `int`, as ASCII octets -/
+def decimal (n : Nat) : Bytes := decimalAux (n + 1) n []
 
 /-! ## WAMP-CRA -/
 namespace Cra
